@@ -15,6 +15,13 @@
 //! first, listeners whose accept future is delayed / never completes /
 //! fails, a no-op `StreamServer::reconfigure`, a pre-connect hook, and
 //! hostile messages with big question sections and the QR bit set.
+//!
+//! Sub-check `stream_txn`: transactions in every representation of the
+//! service feedback (`BeginTransaction` / `EndTransaction` as feedback-only
+//! stream items or attached to the first / last response, no end at all,
+//! no-op `Reconfigure` attached to responses) pipelined on connections with
+//! a short response queue: a response produced inside a transaction is never
+//! discarded (all TCP sub-checks judge by that rule).
 mod model;
 mod net;
 mod oracle;
@@ -625,6 +632,27 @@ fn match_responses(t: &str, rv: &ReqView, w: &[&[u8]], produced: &[Produced], le
     Ok(())
 }
 
+/// Which of the responses the service produced are not among the ones that
+/// arrived (same greedy in-order matching as `match_responses` in lenient
+/// mode; a wire message that matches nothing is left to `match_responses`).
+fn missing_indices(t: &str, rv: &ReqView, w: &[&[u8]], produced: &[Produced]) -> Vec<usize> {
+    let mut missing = vec![];
+    let mut j = 0;
+    for wm in w {
+        let mut k = j;
+        while k < produced.len() && oracle::check_against(t, rv, wm, &produced[k]).is_err() {
+            k += 1;
+        }
+        if k == produced.len() {
+            continue;
+        }
+        missing.extend(j..k);
+        j = k + 1;
+    }
+    missing.extend(j..produced.len());
+    missing
+}
+
 fn check_tcp(case: &TcpCase, obs: &TcpObs, ctx: &mut Ctx) -> CaseResult {
     vensure!(obs.alive, "tcp:server-task-ended", "StreamServer::run returned before shutdown");
     let empty: Vec<&[u8]> = vec![];
@@ -716,6 +744,10 @@ fn check_tcp(case: &TcpCase, obs: &TcpObs, ctx: &mut Ctx) -> CaseResult {
         if conn.items.len() >= 2 && conn.items[1..].iter().any(|i| i.gap_ms == 0) {
             ctx.class("tcp:pipelined");
         }
+        // responses discarded because the queue was full (known finding) /
+        // transactions delivered completely on this connection
+        let mut overflowed = false;
+        let mut txn_complete = false;
         for (n, it) in conn.items.iter().enumerate() {
             if !it.splits.is_empty() {
                 ctx.class("tcp:split-write");
@@ -766,6 +798,22 @@ fn check_tcp(case: &TcpCase, obs: &TcpObs, ctx: &mut Ctx) -> CaseResult {
                             let sig = if *sentinel { format!("tcp:sentinel:{}", &missing_sig[4..]) } else { missing_sig.to_string() };
                             let mut lenient = doomed;
                             if !doomed && w.len() < call.produced.len() {
+                                // A response produced inside a transaction is never discarded for
+                                // lack of room in the queue (ServiceFeedback::BeginTransaction: "an
+                                // entire set of related response messages are all sent back to the
+                                // caller rather than being dropped if the outgoing queue is full"),
+                                // however the service attaches the feedback to its stream items.
+                                let miss = missing_indices(tag, &rv, w, &call.produced);
+                                if let Some(&i) = miss.iter().find(|&&i| plan.in_transaction(i) && call.produced[..=i].iter().all(|p| matches!(p, Produced::Resp(_)))) {
+                                    vfail!(
+                                        format!("{tag}:response-missing:in-transaction"),
+                                        "{}: response #{i} of {} was produced inside a transaction (BeginTransaction given, EndTransaction not yet) and never arrived; {} responses arrived",
+                                        rv.what,
+                                        call.produced.len(),
+                                        w.len()
+                                    );
+                                }
+                                overflowed = true;
                                 // tolerated only if it is a known finding; the rest of the scenario is still checked
                                 ctx.report(Violation::new(sig.clone(), format!("{}: service produced {} responses, {} arrived", rv.what, call.produced.len(), w.len())))?;
                                 lenient = true;
@@ -775,7 +823,24 @@ fn check_tcp(case: &TcpCase, obs: &TcpObs, ctx: &mut Ctx) -> CaseResult {
                                 Kind::Multi { transaction, .. } => ctx.class(if *transaction { "svc:multi-transaction" } else { "svc:multi" }),
                                 Kind::Silent => ctx.class("svc:silent"),
                                 Kind::Fail { .. } => ctx.class("svc:fail"),
+                                Kind::Txn { n, begin_attached, end, noop_reconf, .. } => {
+                                    ctx.class(if *begin_attached { "svc:txn:begin-with-first-response" } else { "svc:txn:begin-feedback-only" });
+                                    ctx.class(match svc::txn_end(*n, *begin_attached, *end) {
+                                        0 => "svc:txn:end-feedback-only",
+                                        1 => "svc:txn:end-with-last-response",
+                                        _ => "svc:txn:no-end",
+                                    });
+                                    if *noop_reconf {
+                                        ctx.class("svc:txn:noop-reconfigure-feedback");
+                                    }
+                                    if *begin_attached && expected_total > case.max_queued {
+                                        ctx.class("svc:txn:begin-with-first-response:more-responses-than-queue");
+                                    }
+                                }
                                 _ => {}
+                            }
+                            if !doomed && plan.in_transaction(0) && w.len() == call.produced.len() {
+                                txn_complete = true;
                             }
                             if plan.delay_ms > 0 {
                                 ctx.class("svc:slow");
@@ -820,6 +885,11 @@ fn check_tcp(case: &TcpCase, obs: &TcpObs, ctx: &mut Ctx) -> CaseResult {
                 }
             }
         }
+        if overflowed && txn_complete {
+            // the queue was full at some point (another request lost a
+            // response), the transaction was delivered completely
+            ctx.class("tcp:txn:complete-although-queue-overflowed");
+        }
         let _ = o.eof;
     }
     Ok(())
@@ -855,6 +925,18 @@ fn run_stream_hist(data: &[u8], ctx: &mut Ctx) -> CaseResult {
     if case.hook {
         ctx.class("tcp:pre-connect-hook");
     }
+    let obs = run_tcp(&case);
+    let r = check_tcp(&case, &obs, ctx);
+    if tcp_nontrivial(&case, ctx) {
+        ctx.nontrivial(&fnv(&format!("{case:?}")));
+    }
+    r
+}
+
+fn run_stream_txn(data: &[u8], ctx: &mut Ctx) -> CaseResult {
+    let mut u = Unstructured::new(data);
+    let case = tcp_txn_case(&mut u);
+    ctx.sample(|| show_tcp(&case));
     let obs = run_tcp(&case);
     let r = check_tcp(&case, &obs, ctx);
     if tcp_nontrivial(&case, ctx) {
@@ -937,6 +1019,15 @@ fn health(c: &BTreeMap<String, u64>, _thorough: bool) -> Result<(), String> {
         "tcp:connection-after-stalled-accept",
         "tcp:reconfigure",
         "tcp:pre-connect-hook",
+        // sub-check stream_txn
+        "svc:txn:begin-with-first-response",
+        "svc:txn:begin-feedback-only",
+        "svc:txn:end-feedback-only",
+        "svc:txn:end-with-last-response",
+        "svc:txn:no-end",
+        "svc:txn:noop-reconfigure-feedback",
+        "svc:txn:begin-with-first-response:more-responses-than-queue",
+        "tcp:txn:complete-although-queue-overflowed",
     ] {
         if c.get(k).copied().unwrap_or(0) < 10 {
             return Err(format!("class {k} starved ({} cases)", c.get(k).copied().unwrap_or(0)));
@@ -959,10 +1050,11 @@ pub fn prop() -> Option<Prop> {
         ],
         subchecks: vec![
             SubCheck::new("dgram", run_dgram, 18_000, 400_000, 1200),
-            SubCheck::new("stream", run_stream, 11_000, 220_000, 1500),
+            SubCheck::new("stream", run_stream, 9_500, 190_000, 1500),
             SubCheck::new("dgram_raw", run_dgram_raw, 20_000, 500_000, 1300),
             SubCheck::new("dgram_hist", run_dgram_hist, 10_000, 200_000, 1300),
-            SubCheck::new("stream_hist", run_stream_hist, 7_000, 140_000, 1600),
+            SubCheck::new("stream_hist", run_stream_hist, 6_000, 120_000, 1600),
+            SubCheck::new("stream_txn", run_stream_txn, 4_000, 80_000, 400),
         ],
         health: Some(health),
         extra: None,
